@@ -25,6 +25,9 @@ type conflictCase struct {
 	Sib      int    `json:"sib"`
 	DevFirst bool   `json:"devFirst"`
 	Dev      string `json:"dev"` // how the deviating pod's labels differ: value | extraKey | extraEmptyKey
+	// admin-policy conflicts: the shape of the conflicting policies: 0 = with an ingress rule, 1 = the one at position i has no
+	// rules at all, 2 = the one at position j (for single-resource conflicts: i) has no rules, 3 = both, 4 = the one at i has only an egress rule
+	Shape int `json:"shape"`
 }
 
 type conflictRun struct {
@@ -44,6 +47,57 @@ type conflictEvent struct {
 	List  conflictRun  `json:"list"`
 	Diff1 conflictRun  `json:"diff1"` // conflict in dir1
 	Diff2 conflictRun  `json:"diff2"` // conflict in dir2
+}
+
+// anpDocX: an AdminNetworkPolicy with (shape 0) one ingress rule, (1) no rules at all, (2) only an egress rule
+func anpDocX(name string, prio, shape int) string {
+	switch shape {
+	case 1:
+		return fmt.Sprintf(`apiVersion: policy.networking.k8s.io/v1alpha1
+kind: AdminNetworkPolicy
+metadata:
+  name: %s
+spec:
+  priority: %d
+  subject:
+    namespaces: {}
+`, name, prio)
+	case 2:
+		return fmt.Sprintf(`apiVersion: policy.networking.k8s.io/v1alpha1
+kind: AdminNetworkPolicy
+metadata:
+  name: %s
+spec:
+  priority: %d
+  subject:
+    pods:
+      namespaceSelector: {}
+      podSelector:
+        matchLabels:
+          app: nobody
+  egress:
+  - name: e
+    action: Pass
+    to:
+    - namespaces: {}
+`, name, prio)
+	}
+	return anpDoc(name, prio)
+}
+
+// banpDocX: shape 1 = a BaselineAdminNetworkPolicy without rules
+func banpDocX(name string, shape int) string {
+	if shape == 1 {
+		return fmt.Sprintf(`apiVersion: policy.networking.k8s.io/v1alpha1
+kind: BaselineAdminNetworkPolicy
+metadata:
+  name: %s
+spec:
+  subject:
+    namespaces: {}
+`, name)
+	}
+	return banpDoc(name)
 }
 
 func anpDoc(name string, prio int) string {
@@ -174,39 +228,59 @@ spec:
 // materialise returns the ordered documents of the case and the names of the resources in conflict.
 func materialise(c conflictCase, withConflict bool) (docs []string, names []string) {
 	type slot struct {
-		name string
-		prio int
+		name  string
+		prio  int
+		shape int
 	}
 	slots := make([]slot, c.N)
 	for k := 0; k < c.N; k++ {
-		slots[k] = slot{fmt.Sprintf("anp-%03d", k+1), c.Prios[k]}
+		slots[k] = slot{fmt.Sprintf("anp-%03d", k+1), c.Prios[k], 0}
 	}
 	extra := map[int][]string{} // docs inserted before slot position (1-based)
 	if withConflict {
 		i, j := c.I-1, c.J-1
+		// shapes of the policies in conflict (see conflictCase.Shape)
+		shapeI, shapeJ := 0, 0
+		switch c.Shape {
+		case 1:
+			shapeI = 1
+		case 2:
+			shapeJ = 1
+			if c.Kind == "priorityLow" || c.Kind == "priorityHigh" || c.Kind == "banpNotDefault" {
+				shapeI = 1
+			}
+		case 3:
+			shapeI, shapeJ = 1, 1
+		case 4:
+			shapeI = 2
+		}
 		switch c.Kind {
 		case "samePriority":
 			slots[j].prio = slots[i].prio
 			names = []string{slots[i].name, slots[j].name}
+			slots[i].shape, slots[j].shape = shapeI, shapeJ
 		case "priorityLow":
 			slots[i].prio = -1 - c.N
 			names = []string{slots[i].name}
+			slots[i].shape = shapeI
 		case "priorityHigh":
 			slots[i].prio = 1001 + c.N
 			names = []string{slots[i].name}
+			slots[i].shape = shapeI
 		case "dupANPName":
 			slots[j].name = slots[i].name
 			names = []string{slots[i].name}
+			slots[i].shape, slots[j].shape = shapeI, shapeJ
 		case "dupNPName":
 			extra[c.I] = append(extra[c.I], npDupDoc)
 			extra[c.J] = append(extra[c.J], npDupDoc)
 			names = []string{"ns1/np-dup"}
 		case "twoBANPs":
-			extra[c.I] = append(extra[c.I], banpDoc("default"))
-			extra[c.J] = append(extra[c.J], banpDoc("default"))
+			extra[c.I] = append(extra[c.I], banpDocX("default", shapeI%2))
+			extra[c.J] = append(extra[c.J], banpDocX("default", shapeJ%2))
 			names = []string{}
 		case "banpNotDefault":
-			extra[c.I] = append(extra[c.I], banpDoc("other"))
+			extra[c.I] = append(extra[c.I], banpDocX("other", shapeI%2))
 			names = []string{}
 		case "ownerLabels":
 			// the deviating pod (label b) at one position, the agreeing pods (label a) at the other
@@ -235,7 +309,7 @@ func materialise(c conflictCase, withConflict bool) (docs []string, names []stri
 	docs = append(docs, baseDocs)
 	for k := 0; k < c.N; k++ {
 		docs = append(docs, extra[k+1]...)
-		docs = append(docs, anpDoc(slots[k].name, slots[k].prio))
+		docs = append(docs, anpDocX(slots[k].name, slots[k].prio, slots[k].shape))
 	}
 	return docs, names
 }
